@@ -42,10 +42,8 @@ fn fix_ident_conflicts(sig: &mut syn::Signature) -> ParamStatus {
             syn::FnArg::Typed(pat_type) => match pat_type.pat.as_mut() {
                 syn::Pat::Ident(param_ident) => {
                     if param_ident.ident == fn_ident_string {
-                        param_ident.ident = syn::Ident::new(
-                            &format!("{}_", param_ident.ident),
-                            param_ident.ident.span(),
-                        );
+                        // format_ident! copes with raw identifiers (`r#type` => `type_`)
+                        param_ident.ident = quote::format_ident!("{}_", param_ident.ident);
                     }
 
                     ParamStatus::Ok
